@@ -56,7 +56,7 @@ func c24Run(cs c24Case) (sig, what, class string) {
 		klocal++
 	}
 	complete := klocal == len(ref.Loads)
-	obs, _ := runExchange(vsched.Config{}, d, sel, split, nil, nil, exts...)
+	obs, _ := runExchange(vsched.Config{Fast: true}, d, sel, split, nil, nil, exts...)
 	class = fmt.Sprintf("complete=%v localPrefix=%d userK=%d userS=%d", complete, min(klocal, 3), cs.UserK, len(cs.UserS))
 	detail := fmt.Sprintf("shape %s selector %s requestor has %v userSkip=%d userIgnore=%v", cs.Shape, cs.Sel, cs.Local, cs.UserK, cs.UserS)
 	if obs.Panic != "" {
